@@ -50,3 +50,73 @@ pub fn bad_driver(mut w: Work, items: &[u32]) {
         }
     }
 }
+
+/// cooperative-passthrough: seeded positive / negatives
+#[derive(Clone, Copy, PartialEq)]
+pub enum Sched {
+    NonCooperative,
+    Cooperative,
+}
+pub struct Strm(pub u32);
+pub trait Plan {
+    fn execute(&self, partition: usize) -> Result<Strm, String>;
+}
+#[inline(never)]
+pub fn make_coop(s: Strm) -> Strm {
+    Strm(s.0 + 1)
+}
+pub struct PassAll {
+    pub input: Box<dyn Plan>,
+    pub n: usize,
+    pub sched: Sched,
+}
+pub struct PassCond {
+    pub input: Box<dyn Plan>,
+    pub n: usize,
+    pub sched: Sched,
+}
+pub struct WrapAll {
+    pub input: Box<dyn Plan>,
+    pub n: usize,
+    pub sched: Sched,
+}
+impl PassAll {
+    /// seeded: always Cooperative
+    pub fn compute(n: usize) -> Sched {
+        let _ = n;
+        Sched::Cooperative
+    }
+}
+impl Plan for PassAll {
+    fn execute(&self, partition: usize) -> Result<Strm, String> {
+        if self.n == 1 {
+            return self.input.execute(partition);
+        }
+        Ok(make_coop(self.input.execute(partition)?))
+    }
+}
+impl PassCond {
+    /// correct: Cooperative only when it really merges
+    pub fn compute(n: usize, child: Sched) -> Sched {
+        if n > 1 { Sched::Cooperative } else { child }
+    }
+}
+impl Plan for PassCond {
+    fn execute(&self, partition: usize) -> Result<Strm, String> {
+        if self.n == 1 {
+            return self.input.execute(partition);
+        }
+        Ok(make_coop(self.input.execute(partition)?))
+    }
+}
+impl WrapAll {
+    pub fn compute(n: usize) -> Sched {
+        let _ = n;
+        Sched::Cooperative
+    }
+}
+impl Plan for WrapAll {
+    fn execute(&self, partition: usize) -> Result<Strm, String> {
+        Ok(make_coop(self.input.execute(partition)?))
+    }
+}
